@@ -285,7 +285,7 @@ class Prop:
             return obs
         if case['kind'] == 'gr':
             return [[[[o[0], sorted(o[1])] if o[0] in (2, 5) else o for o in outs], b] for outs, b in obs]
-        return [[a, b, sorted(lt), sorted(rs)] for a, b, lt, rs in obs]
+        return [[a, b, sorted(lt), sorted(rs), ng] for a, b, lt, rs, ng in obs]
 
     # ---- Spec oracle (python mirror of Spec/GrSpec.v): judges the implementation's observations
     def oracle(self, c, obs):
@@ -307,7 +307,7 @@ class Prop:
             if any(b for _, b in obs):
                 return ('gr', json.dumps(obs))
             return None
-        if any(any(r[3] or r[4] for r in rs) for _, _, _, rs in obs):
+        if any(any(r[3] or r[4] for r in o[3]) for o in obs):
             return ('h', json.dumps(obs))
         return None
 
@@ -352,7 +352,7 @@ def oracle_h(c, obs):
     admin = False
     prev = [0, 0, [], []]
     for k, (e, o) in enumerate(zip(evs, obs)):
-        restarting, rt, lts, routes = o
+        restarting, rt, lts, routes = o[:4]
         t = e[0]
         if t == 'admin':
             admin = e[1]
